@@ -23,6 +23,14 @@ let () =
            st := init_state (parse_env f) (unhex (get f "caller")) (unhex (get f "defdir"))
          | "dumpfs" -> print_fs !idx !st
          | "counters" -> print_counters !idx !st
+         | "readslots" ->
+           let path = unhex (get f "path") in
+           let content = (match List.assoc_opt path (!st).s_fs with Some c -> c | None -> []) in
+           let ids = List.filter (fun x -> x <> "") (String.split_on_char ',' (get f "ids")) in
+           Printf.printf "slots %d %s\n" !idx
+             (String.concat " " (List.map (fun ih ->
+                ih ^ "=" ^ (match (if List.mem_assoc path (!st).s_fs then get_prev (unhex ih) content else None) with
+                            | Some (b, _) -> hex b | None -> "~")) ids))
          | "clean" -> incr idx; st := Cmd_clean.run_clean !idx !st f
          | "readsum" -> incr idx; Cmd_clean.run_readsum !idx f
          | c when Hashtbl.mem extra_cmds c ->
